@@ -650,4 +650,4 @@ def rule_F3c(ctx, records=None):
                          "at detach and the file keeps the old record" % (b, what, b))
         else:
             ctx.holds("F3c", key, f.where(), "every non-failing path that changes a persisted field also sets `marked`")
-    ctx.floor("F3c", 6, n, "(functions changing persisted Vgroup/Vdata fields)")
+    ctx.floor("F3c", 4 * len(fields), n, "(functions changing persisted Vgroup/Vdata fields)")
